@@ -260,7 +260,7 @@ def work(payload, skip, report):
             acc.case()
             acc.distinct("inputs", src)
             for o, ob, ex in res:
-                acc.violation(o, {"input": src}, ob, ex)
+                acc.violation(o, {"input": src, "kind": "table", "spec": list(spec)}, ob, ex)
             if i % 4001 == 1:
                 acc.sample({"input": src})
     elif kind == "full2x2":
@@ -274,7 +274,7 @@ def work(payload, skip, report):
                     acc.case()
                     acc.distinct("inputs", src)
                     for o, ob, ex in res:
-                        acc.violation(o, {"input": src}, ob, ex)
+                        acc.violation(o, {"input": src, "kind": "full2x2", "spec": [list((f0,) + rest), sep, hdr]}, ob, ex)
     elif kind == "html":
         for tag, am, content, src in html_cases(ctx):
             report(i)
@@ -283,7 +283,7 @@ def work(payload, skip, report):
             acc.case()
             acc.distinct("inputs", src)
             for o, ob, ex in res:
-                acc.violation(o, {"input": src, "tag": tag}, ob, ex)
+                acc.violation(o, {"input": src, "tag": tag, "kind": "html", "spec": [tag, am, content, src]}, ob, ex)
         acc.sample({"html_tags": len([t for t in ctx.allowed_html_tags if t not in HTML_SKIP])})
     else:
         _, form = payload
@@ -296,11 +296,32 @@ def work(payload, skip, report):
             acc.case()
             acc.distinct("inputs", src)
             for o, ob, ex in res:
-                acc.violation(o, {"input": src, "args": list(args)}, ob, ex)
+                acc.violation(o, {"input": src, "args": list(args), "kind": "call", "spec": [form, list(args)]}, ob, ex)
             if i % 301 == 1:
                 acc.sample({"input": src})
     close_ctx(ctx)
     return acc
+
+
+def replay(case):
+    ctx = new_ctx()
+    exp = Expect(ctx)
+    try:
+        k, spec = case.get("kind"), case.get("spec")
+        if k == "table":
+            r, c, sep, cap, tattr, rattr, cattr, hdr, a, b, cc = spec
+            _, res = check_table(ctx, exp, (r, c, sep, tuple(cap) if cap else None, tattr, rattr, cattr, hdr, a, b, cc))
+        elif k == "full2x2":
+            _, res = check_full_2x2(ctx, exp, tuple(spec[0]), spec[1], spec[2])
+        elif k == "html":
+            res = check_html(ctx, exp, spec[0], spec[1], spec[2], spec[3])
+        elif k == "call":
+            _, res = check_call(ctx, exp, spec[0], spec[1])
+        else:
+            return None
+    finally:
+        close_ctx(ctx)
+    return [{"oracle": o, "observed": ob, "expected": ex} for o, ob, ex in res]
 
 
 def main(run):
@@ -328,4 +349,4 @@ def main(run):
         "the expected content of a cell / element / argument is that content parsed standalone (differential), compared up to surrounding whitespace that the table syntax itself introduces",
         "attribute names/values are URL-safe",
     ]
-    return run.finish(cov, assumptions, replay_fn=None)
+    return run.finish(cov, assumptions, replay_fn=replay)
